@@ -116,23 +116,23 @@ CHECKS = {
              essential=_V2_SCHEMAS + ["on-disk", "in-memory", "files-compared", "dangling-entities"])]),
     "C02": dict(level="exploration", parts=[
         dict(prop="C02.enc", harness="codec_pbt", quick=dict(count=24000, workers=8), thorough=dict(count=2400000, workers=16),
-             essential=_CODEC_ESS_KINDS + ["label=255", "payload>16KiB"]),
+             essential=_CODEC_ESS_KINDS + ["label=255", "payload>16KiB", "payload=chunk-multiple", "payload=chunk-multiple-1", "payload=chunk-multiple+1"]),
         dict(prop="C02.dec", harness="codec_pbt", quick=dict(count=24000, workers=8), thorough=dict(count=2400000, workers=16),
-             essential=_CODEC_ESS_KINDS + ["label=255", "zlib-stored", "foreign:flag", "foreign:zero-tail"]),
+             essential=_CODEC_ESS_KINDS + ["label=255", "zlib-stored", "foreign:flag", "foreign:zero-tail", "payload=chunk-multiple", "payload=chunk-multiple-1", "payload=chunk-multiple+1"]),
         dict(prop="C02.e2e", harness="api_pbt", quick=dict(count=2400, workers=6), thorough=dict(count=100000, workers=16),
              essential=_ALL_SCHEMAS + ["write-accepted", "mode=update", "cue-slot7", "label=255", "waveform:recommended-size", "key=c_major"]),
     ]),
     "C03": dict(level="exploration", parts=[
         dict(prop="C03", harness="codec_pbt", quick=dict(count=40000, workers=8), thorough=dict(count=3300000, workers=16),
              essential=_CODEC_ESS_KINDS + ["label=255", "label=256", "label=300", "entries=8", "entries=9", "entries=12", "double:nan",
-                                           "grid:1-marker", "grid:unsorted", "grid:>32768", "extra-data", "encode-rejected"]),
+                                           "grid:1-marker", "grid:unsorted", "grid:>32768", "extra-data", "encode-rejected", "payload=chunk-multiple", "payload=chunk-multiple-1", "payload=chunk-multiple+1"]),
         dict(prop="C03.reg", harness="codec_pbt", quick=dict(count=0, workers=1), thorough=dict(count=0, workers=1)),  # regression scenarios only
     ]),
     "C04": dict(level="exploration", parts=[
         dict(prop="C04", harness="codec_pbt", quick=dict(count=20000, workers=8), thorough=dict(count=1500000, workers=16),
              essential=["kind=v2.track_data", "kind=v2.beat_data", "kind=v2.quick_cues", "kind=v2.loops", "kind=v2.overview_waveform",
                         "count!=8", "flag>1", "v2.track_data:tail", "v2.overview_waveform:tail", "v2.beat_data:tail", "v2.loops:tail",
-                        "v2.quick_cues:tail"]),
+                        "v2.quick_cues:tail", "payload=chunk-multiple", "payload=chunk-multiple-1", "payload=chunk-multiple+1"]),
         dict(prop="C04.fuzz", kind="fuzz", targets=[0, 1, 2, 3, 4], quick_runs=150000, thorough_runs=6000000),
         dict(prop="REG", harness="api_pbt", quick=dict(count=0, workers=1), thorough=dict(count=0, workers=1)),  # regression scenarios
         dict(prop="C04.api", harness="api_pbt", quick=dict(count=3000, workers=6), thorough=dict(count=150000, workers=16),
@@ -280,7 +280,8 @@ RULES = {
            "engine_library::load + observation and load_database. "
            "Non-trivial = state has >=1 track and >=1 membership or nested crate.",
     "C02": "Two generated campaigns over all 11 blob kinds. enc: a logical value (finite doubles, labels 0..255 bytes of arbitrary content, "
-           "0..20 cue/loop entries, grids/waveforms of 0..60 entries plus 1024 and large sizes) is encoded by the library and decoded by "
+           "0..20 cue/loop entries, grids/waveforms of 0..60 entries plus 1024 and large sizes; one 2.x value in ten has its trailing data padded so that the payload "
+           "ends on a 16384-byte zlib chunk boundary or one byte off it) is encoded by the library and decoded by "
            "refcodec (independent table-driven layout reader, one-shot zlib, verifies the length prefix and that the stream ends at the end "
            "of the blob); the tokens must equal the harness's own value->layout mapping. dec: the same values are encoded by refcodec "
            "(zlib level -1..9, 1.x blobs additionally with foreign flag bytes, unknown fields, zero tails, arbitrary max entries) and "
@@ -289,12 +290,12 @@ RULES = {
     "C03": "Each case = one of the 11 blob kinds and a value drawn from the whole struct domain: doubles by bit-pattern class (0, -0, -1 "
            "sentinel, denormal, NaN payloads, +-inf, arbitrary bits), integer edges, labels of 0/1/short/254/255/256/300 arbitrary bytes, "
            "0..12 cue/loop entries, 1.x grids empty/2/many/1-marker/unsorted/>32768/extreme indices, waveforms 0..60/1024/large, extra_data "
-           "0..64 bytes. Oracle: encode throws std::exception, or decode(encode(v)) is bit-identical to v (own renderer, NaN by bits) up to "
+           "0..64 bytes or padding the payload to a 16384-byte zlib chunk boundary -1/0/+1. Oracle: encode throws std::exception, or decode(encode(v)) is bit-identical to v (own renderer, NaN by bits) up to "
            "the one permitted loss (1.x cue/loop with offset -1 reads back absent). 1.x zero-means-none fields (sample rate/count, loudness, "
            "key 0 in the trackData blob) are generated absent instead of present-zero. Non-trivial = value has >=1 entry or non-empty "
            "extra_data and was accepted by the encoder; distinct = distinct canonical renderings.",
     "C04": "pbt part: a generated 2.x value (0..20 entries, arbitrary flag bytes 0..255 for is_start_set/is_end_set/is_beatgrid_set and the "
-           "main-cue boolean, 0..64 trailing bytes) is encoded by refcodec at zlib level -1..9 and given to from_blob; if accepted, the "
+           "main-cue boolean, 0..64 trailing bytes or a tail that ends the payload on a 16384-byte zlib chunk boundary -1/0/+1) is encoded by refcodec at zlib level -1..9 and given to from_blob; if accepted, the "
            "inflated payload of to_blob(from_blob(b)) must equal the original payload byte for byte (main-cue boolean normalised to 1, located "
            "through the layout table). fuzz part: libFuzzer on the five 2.x decoders with the same oracle inside the target (raw bytes or "
            "bytes framed by the target). api part: a 2.x track row gets five foreign blobs (refcodec-built: counts != 8, flag bytes, tails) written "
